@@ -280,3 +280,34 @@ func runPD(seed int64, tier string) {
 		}
 	}
 }
+
+// replay for the observation "a scan answer holding a region that touches the range only in a short boundary key":
+// keyspace 255 raw, regions ... [72 00 00 FF 6D, 72 00 01) [72 00 01, 72 00 01 00) [72 00 01 00, ...)
+func demoScanShort() {
+	ctx := circuitbreaker.WithCircuitBreaker(context.Background(), circuitbreaker.NewCircuitBreaker("verif-demo",
+		circuitbreaker.Settings{ErrorRateWindow: 30 * time.Second, MinQPSForOpen: 1 << 30, CoolDownInterval: time.Second, HalfOpenSuccessCount: 1}))
+	k := getCodec("r", 255)
+	m := newMock(cat(k.pfx, "m"), cp(k.end[:3]), cp(k.end))
+	cpd, err := locate.NewCodecPDClientWithKeyspace(apicodec.ModeRaw, ksPD{m.pd, ksMeta(255)}, "ks")
+	if err != nil {
+		panic(err)
+	}
+	rs, _ := m.pd.ScanRegions(ctx, nil, nil, 0)
+	for _, r := range rs {
+		fmt.Fprintf(out, "physical region %d [%s, %s)\n", r.Meta.Id, hx(rawBound(r.Meta.StartKey)), hx(rawBound(r.Meta.EndKey)))
+	}
+	for _, key := range [][]byte{[]byte("a"), []byte("z")} {
+		r, err := cpd.GetRegion(ctx, key)
+		if err != nil {
+			fmt.Fprintf(out, "GetRegion(%q) error %v\n", key, err)
+			continue
+		}
+		fmt.Fprintf(out, "GetRegion(%q) = region %d [%q, %q)\n", key, r.Meta.Id, r.Meta.StartKey, r.Meta.EndKey)
+	}
+	got, err := cpd.ScanRegions(ctx, []byte("a"), nil, 0)
+	fmt.Fprintf(out, "ScanRegions(\"a\", \"\") = %d regions, error %v\n", len(got), err)
+	got, err = cpd.ScanRegions(ctx, []byte("a"), []byte("z"), 0)
+	fmt.Fprintf(out, "ScanRegions(\"a\", \"z\") = %d regions, error %v\n", len(got), err)
+	got, err = cpd.BatchScanRegions(ctx, []router.KeyRange{{StartKey: []byte("a")}}, 100)
+	fmt.Fprintf(out, "BatchScanRegions([\"a\", \"\")) = %d regions, error %v\n", len(got), err)
+}
